@@ -1,4 +1,5 @@
 pub mod frames;
+pub mod http1;
 pub mod sig;
 pub mod strat;
 pub mod tls;
